@@ -356,6 +356,24 @@ fn run<const K: usize>(case: u64, rng: &mut Rng, ev: &mut Ev) {
     if t.num_terminals() != terms.len() || t.len() != all.len() {
         fail!("c13:num_terminals", format!("num_terminals {} expected {}", t.num_terminals(), terms.len()));
     }
+    {
+        let mut tm = t.clone();
+        let got: Vec<usize> = tm.terminals_mut().map(|n| n.idx).collect();
+        if got != terms {
+            fail!("c13:terminals_mut", format!("terminals_mut {:?} expected {:?}", got, terms));
+        }
+        for (i, n) in &m.nodes {
+            let exp: Vec<(usize, usize)> = n.children.iter().enumerate().filter_map(|(l, c)| c.map(|c| (l, c))).collect();
+            match t.tree_node(*i) {
+                Ok(tn) => {
+                    if tn.children_iter().collect::<Vec<_>>() != exp {
+                        fail!("c13:children_iter", format!("children_iter of node {} is {:?} expected {:?}", i, tn.children_iter().collect::<Vec<_>>(), exp));
+                    }
+                }
+                Err(_) => fail!("c13:tree_node", format!("tree_node({}) failed for a live node", i)),
+            }
+        }
+    }
     let mut edges: Vec<(usize, usize, usize)> = t.edge_iter().map(|e| (e.source_idx, e.label, e.target_idx)).collect();
     edges.sort();
     let mut exp_edges: Vec<(usize, usize, usize)> = Vec::new();
